@@ -67,12 +67,13 @@ def run(ctx):
     ctx.exhaustive = True
     ctx.rule = ("Doc.tla: every abstract document up to the node/depth bound over three leaf sets (structure, 20 inline snippets incl. multi-line links / code spans / "
                 "tags in every container, code and HTML blocks) under the default choice vector, every single-choice variation (24) and choice pairs (thorough); "
-                "Blocks.tla: every document of <= 3/4 line shapes over 50 shapes, <= 3/4 over 22 tab shapes, <= 4/6 over 12 core shapes; "
+                "Blocks.tla: every document of <= 3/4 line shapes over 50 shapes, <= 3/4 over 22 tab shapes, <= 4/6 over 12 core shapes, <= 3/4 over 34 reference-definition shapes, "
+                "<= 3/4 over 41 HTML-block shapes, and the core / definition / HTML sets again with CR, CRLF and mixed line endings; "
                 "Inline.tla: every string <= 4/6 over seven alphabets; non-trivial = document with >= 3 line endings / skeleton with >= 4 nodes / string with >= 1 inline node; "
                 "distinct by document bytes")
     ctx.assumptions += ["Doc.tla's libraries only contain spellings whose meaning is fixed by the spec text; compositions whose meaning depends on more than the rule exercised are excluded by CanAddLeaf / CanClose / ChoiceOK",
                         "the denotation is written in the renderer's dialect (void tags without slash, &quot; / &#39;, references copied verbatim) and compared exactly per root block",
-                        "Blocks.tla does not model HTML blocks, reference definitions or CR line endings; Inline.tla models one line"]
+                        "Blocks.tla models link reference definitions with the named deviation DefIndentLimit (a following definition is recognised behind at most three spaces) and applies HTML start condition 7 to closing raw-text tags as both reference implementations do; Inline.tla models one line"]
     ctx.finish()
 
 
